@@ -81,11 +81,38 @@ INFO = {
               "assignments"),
     "C20-b": (["C20"], "missed at first",
               "no diff contained the same textual type change at an input and an output position; edit `mirror-nullability` added"),
+    # ---- round 3 (each agent was told about both earlier changes; confirmed with tools/confirm_seed.sh in scratch worktrees)
+    "C01-c": (["C01"], "caught as written", None),
+    "C02-c": (["C02", "C01"], "missed at first", "generated comments never contained a tab (or other legal non-terminator characters) followed by parsable text; added to the insignificant-token pools"),
+    "C03-c": (["C03"], "caught as written", None),
+    "C04-c": (["C08"], "caught as written (by C08: the change only shows on the deferred runtimes, C04 drives the blocking entry points)", None),
+    "C05-c": (["C05"], "caught as written", None),
+    "C06-c": (["C06"], "caught as written", None),
+    "C07-c": (["C07"], "caught as written", None),
+    "C08-c": (["C08"], "missed at first",
+              "no explicit resolver returned a task it had submitted to the runtime itself, and the harness-owned pool had unboundedly many "
+              "workers; a quarter of the explicit resolvers now do, and the pool models 1-3 workers: a running task that waits for a "
+              "pending pool task lets other modelled workers proceed and reports a deadlock when none is free"),
+    "C09-c": (["C09"], "caught as written", None),
+    "C10-c": (["C10"], "missed at first", "request texts had no Unicode line separators / comments; C10 now also re-renders requests with drawn insignificant tokens (and truncates those), string values contain U+2028/U+0085"),
+    "C11-c": (["C11"], "caught as written", None),
+    "C12-c": (["C12"], "caught as written", None),
+    "C13-c": (["C13"], "caught as written", None),
+    "C14-c": (["C14"], "caught as written", None),
+    "C15-c": (["C15"], "caught as written", None),
+    "C16-c": (["C16"], "caught as written", None),
+    "C17-c": (["C17"], "caught as written (by the aborted-event scenario added after round 2)", None),
+    "C18-c": (["C18"], "missed at first", "chains were only tested flat and read-only; C18 now compares nested ChainedVisitor structures with an editing member against the documented chain semantics composed the same way"),
+    "C19-c": (["C19"], "caught as written", None),
+    "C20-c": (["C20"], "missed at first", "every interface had an implementer; C20 now sometimes strips all implementations of one interface from the base schema"),
 }
+RAN_C = ("tools/confirm_seed.sh (scratch worktree of /repo HEAD, /repo itself untouched because a background thorough run was using it): "
+         "demo.py on the clean tree (exit 0), patch applied, repo test-suite (1895 passed), demo.py with the change (exit 1), "
+         "`bin/check <ids> --tier quick` against the changed tree (VERIF_SEED=1)")
 for sid, (caught, first, strengthening) in sorted(INFO.items()):
     p = os.path.join(HERE, "seeded", sid, "meta.json")
     m = json.load(open(p))
-    m["what_i_ran"] = RAN
+    m["what_i_ran"] = RAN_C if sid.endswith("-c") else RAN
     m["caught_by_quick_checks"] = caught
     m["first_round"] = first
     if strengthening:
